@@ -157,4 +157,8 @@ def check_unions_unit(kf):
 
 
 UNITS['c33_check_unions'] = (['C33'], check_unions_unit)
-SEARCH['c33_check_unions'] = []
+SEARCH['c33_check_unions'] = ['c33_build']
+
+BOUNDED = {'C33': [dict(case='c33_build', function='src/dynamic/check.rs::SchemaInner::check (check_root_types, check_objects, check_interfaces, check_unions, check_input_object_reference, check_is_valid_implementation) through SchemaBuilder::finish; every schema that builds is also exported and introspected',
+                        bound='~35 hand-labelled type systems (root types, output/input type positions, required input-object cycles incl. cycles behind leading leaf fields, union members of every kind, interface implementations: missing fields, nullability, list covariance, arguments)',
+                        why='the IndexMap-driven check_* loops use closures, trait objects (BaseContainer) and a HashSet<&str> visited chain; only TypeRef predicates and check_unions are under contract')]}
